@@ -2,7 +2,7 @@
 call-site discovery."""
 import ast
 
-from .cfg import cfg_of, N, X
+from .cfg import cfg_of, N, X, Node
 from .errors import AnalysisError
 from . import q
 
@@ -95,15 +95,99 @@ def make_guard(kind, subject_pred, want_positive):
     return guard
 
 
+class _Proxy(object):
+    """A test node seen through the value its flag variable holds on the current path."""
+    __slots__ = ("kind", "ast", "stmt", "id", "lineno")
+
+    def __init__(self, node, expr):
+        self.kind = "test"
+        self.ast = expr
+        self.stmt = node.stmt
+        self.id = node.id
+        self.lineno = node.lineno
+
+
+def _flaggable(v):
+    """Expressions whose value a boolean local may stand for in a later test."""
+    if isinstance(v, ast.Constant) and isinstance(v.value, bool):
+        return True
+    if isinstance(v, ast.Call) and not v.keywords and all(isinstance(a, (ast.Name, ast.Constant, ast.Attribute)) for a in v.args):
+        return True
+    if isinstance(v, ast.Compare):
+        return True
+    if isinstance(v, ast.UnaryOp) and isinstance(v.op, ast.Not):
+        return _flaggable(v.operand)
+    return False
+
+
 def path_avoiding_guard(cfg, targets, guard, mode=N, sources=None):
     """None when every path from entry/sources to a target crosses a guard edge; otherwise a
-    witness path that avoids all guard edges."""
+    witness path that avoids all guard edges.
 
-    def keep(e):
-        lab = guard(cfg.nodes[e.src])
-        return not (lab is not None and e.label == lab)
+    The search is path-sensitive in boolean locals: after `flag = <test expression>` a later test
+    of `flag` counts as a test of that expression (evaluated where it was assigned - a value
+    assigned before the search's sources is unknown), and a flag holding a constant only follows
+    the consistent edge."""
+    from collections import deque
+    tg = set(n.id if isinstance(n, Node) else n for n in targets)
+    src = [n.id if isinstance(n, Node) else n for n in (sources or [cfg.entry])]
+    table = {}            # id(expr) -> expr
+    parent = {}
+    dq = deque()
+    for s0 in src:
+        st = (s0, ())
+        if st not in parent:
+            parent[st] = None
+            dq.append(st)
+    while dq:
+        cur = dq.popleft()
+        u, frozen = cur
+        nd = cfg.nodes[u]
+        if u in tg:
+            path = []
+            c = cur
+            while c is not None:
+                path.append(cfg.nodes[c[0]])
+                c = parent[c]
+            return list(reversed(path))
+        kd = dict((k, table[i]) for k, i in frozen)
+        eff = nd
+        only = None
+        if nd.kind == "test" and isinstance(nd.ast, ast.Name) and nd.ast.id in kd:
+            val = kd[nd.ast.id]
+            if isinstance(val, ast.Constant):
+                only = "T" if val.value else "F"
+            else:
+                eff = _Proxy(nd, val)
+        if nd.kind == "stmt" and isinstance(nd.ast, ast.Assign):
+            for t in nd.ast.targets:
+                if isinstance(t, ast.Name):
+                    if _flaggable(nd.ast.value):
+                        kd[t.id] = nd.ast.value
+                        table[id(nd.ast.value)] = nd.ast.value
+                    else:
+                        kd.pop(t.id, None)
+        elif nd.kind == "stmt" and isinstance(nd.ast, ast.AugAssign) and isinstance(nd.ast.target, ast.Name):
+            kd.pop(nd.ast.target.id, None)
+        lab = guard(eff) if eff.kind == "test" else None
+        nf = _freeze(kd)
+        for e in cfg.succ[u]:
+            if not cfg.edge_ok(e, mode):
+                continue
+            if lab is not None and e.label == lab:
+                continue
+            if only is not None and e.label in ("T", "F") and e.label != only:
+                continue
+            nxt = (e.dst, nf)
+            if nxt in parent:
+                continue
+            parent[nxt] = cur
+            dq.append(nxt)
+    return None
 
-    return cfg.find_path(sources or [cfg.entry], targets, mode, keep_edge=keep)
+
+def _freeze(kd):
+    return tuple(sorted((k, id(v)) for k, v in kd.items()))
 
 
 def guard_edges_exist(cfg, guard):
